@@ -10,8 +10,10 @@ Type equality for C03 (`Spec.WF f a = Spec.WFS f a ∧ Spec.typeOf a = f.dataTyp
   already forces the type of the array, names / nullability / metadata of every child and every parameter included
   (structural recursion over the ARRAY; speaks about arbitrary arrays, nothing about builders).
 * `PlainDT dt`: no Map entries field carries metadata — the exclusion of the KNOWN finding C03-map-entries-metadata.
-* `newDT_strict : newDT path dt nl md = ok b → PlainDT dt → StrictDT dt` — `build_builder` refuses sparse unions and
-  nullable Map entries (repo fixes of round c03f), so whatever it accepts is strict up to the entries metadata.
+* `newDT_strict_all` (Lemmas/C03TypeNew.lean; first conjunct `newDT path dt nl md = ok b → PlainDT dt → StrictDT dt`,
+  corollaries `newB_strict`, `newFields_strict`, `newRoot_strict`; `Props.C03.accepted_strict`) — `build_builder` refuses
+  sparse unions and nullable Map entries (repo fixes c63d82e / 25f1351), so whatever it accepts is strict up to the
+  entries metadata.
 -/
 namespace SaModel.Lemmas.C03
 open SaModel SaModel.Build SaModel.Spec
